@@ -317,6 +317,44 @@ func genRedef(w *bufio.Writer, r *rng, id int) {
 		}
 	}
 	fmt.Fprintf(w, "end\n")
+	// the option slice handed to Redefine belongs to the caller: calling the redefined function must
+	// not write into its spare capacity (a second option list sharing the array would change)
+	if newFn != nil && len(newFn.Input().Values()) > 0 {
+		base := sc.callArgs(false)
+		if fin != nil {
+			base = append(base, am.FilterInput(fin.mk()))
+		}
+		withCap := make([]am.Arg, len(base), len(base)+4)
+		copy(withCap, base)
+		var verdict string
+		if recovered(func() {
+			rA, err := sc.Funcs[0].fn.Redefine(withCap...)
+			if err != nil || rA == nil {
+				verdict = "skip"
+				return
+			}
+			full := append(withCap, am.Named("zzsentinel", K9{ID: 4242}))
+			var outer []am.Arg
+			for i, v := range rA.Input().Values() {
+				ty := concreteFor(r, tyID(v.Type))
+				if v.Name != "" {
+					outer = append(outer, am.Named(v.Name, mkValue(ty, 6000+i, -1).Interface()))
+				} else {
+					outer = append(outer, am.Typed(mkValue(ty, 6000+i, -1).Interface()))
+				}
+			}
+			rA.Call(outer...)
+			d := am.VerifBuilder(nil, full[len(withCap)])
+			if v, ok := d.Named["zzsentinel"]; ok && vidOf(v) == 4242 {
+				verdict = "intact"
+			} else {
+				verdict = "modified"
+			}
+		}) {
+			verdict = "panic"
+		}
+		fmt.Fprintf(w, "scn alias %d\nalias %s\nend\n", id, verdict)
+	}
 }
 
 func nestOf(f *filterSpec) int {
